@@ -424,6 +424,10 @@ def run(ctx):
                     "events": [e["ev"] for e in traces[min(3, len(traces) - 1)]["events"]][:40]})
         ctx.extra.setdefault("mutation_points", {})["%s-B%d-U%d" % (mode, B, U0)] = M
     ctx.extra["crash_schedules_run"] = total_sched
+    # (D) end to end: the real script drives the REAL command-line programs (prepare, train, distance, scores, select, reveal,
+    # metadata) in-process along the workflow DAG; TracePipeline replays one event per completed step
+    from harness.pipeline import run_e2e
+    run_e2e(ctx, "C19", [(2, ctx.seed)] if ctx.quick else [(b, ctx.seed + k) for b in (1, 2, 3) for k in (0, 1)])
     ctx.assumptions += ["Nextflow is replaced by a model pipeline: publishing a file is atomic and respects the process dependencies of the "
                         "launched workflow (and only those)", "the operator removes exactly the directory the script names",
                         "--batch-size and the input screen do not change between reruns",
